@@ -123,7 +123,10 @@ def setitem_worker(job):
             if op == "+=": d = d + y
             elif op == "-=": d = d - y
             else: d = d * y
-            return d.astype(xx.dtype) if not isinstance(d, np.ma.MaskedArray) else np.ma.masked_array(np.ma.getdata(d).astype(np.ma.getdata(xx).dtype), mask=np.ma.getmaskarray(xx))
+            if isinstance(xx, np.ma.MaskedArray):
+                # (0-d masked arithmetic hands back a plain scalar in NumPy: rebuild the masked result)
+                return np.ma.masked_array(np.asarray(np.ma.getdata(d)).astype(np.ma.getdata(xx).dtype), mask=np.ma.getmaskarray(xx))
+            return np.asarray(d).astype(xx.dtype)
         inputs, dts = [x], [dtype]
         if isinstance(y, np.ndarray):
             inputs, dts = [x, y], [dtype, base]
@@ -284,7 +287,8 @@ def run(ctx: common.Ctx):
         "distinct cases/rows/histories; non-trivial = an in-place step is present")
     quick = ctx.tier == "quick"
     dts = ["int64", "float64", "int8", "uint16", "bool", "utf8", "nint64", "nfloat32", "nbool", "nutf8", "float32", "uint64", "int32", "nuint8"]
-    jobs = [(d, ctx.seed * 211 + k) for d in dts for k in range(14 if quick else 200)]
+    import zlib
+    jobs = [(d, zlib.crc32(f"{d}/{ctx.seed}/{k}".encode())) for d in dts for k in range(14 if quick else 200)]
     for job, r in tables.pairs(ctx, jobs, tables.pmap(setitem_worker, jobs, chunk=8)):
         if isinstance(r, tables.Crashed):
             ctx.violation("setitem/interpreter-crash", f"{job}: worker died", {"job": repr(job)}); continue
